@@ -569,6 +569,9 @@ func checkAPKStructure(c *Ctx, r *Report) {
 			}
 			isInfo := false
 			for _, a := range call.Call.Args {
+				if constOrEmpty(a) == ".PKGINFO" {
+					isInfo = true // the name handed to a helper that builds the header
+				}
 				if al, ok := a.(*ssa.Alloc); ok && isNamed(derefType(al.Type()), "archive/tar", "Header") {
 					for _, ref := range *al.Referrers() {
 						if fa, ok := ref.(*ssa.FieldAddr); ok && fieldName(fa.X.Type(), fa.Field) == "Name" {
